@@ -20,6 +20,16 @@ CHECKS = {
     note=BASE + "synthetic evaluation networks (the shipped one is emptied here); search internals not modelled; no 64-bit hash collisions; depth-limited searches are not run at reduced strength (they explode by design).",
     technique="Lean 4 proof (root bookkeeping invariants, PV acceptor) + audit of the real engine's UCI output by the Lean chess model over positions x limits x options",
     design="6/C03", category="proof"),
+ "C11": dict(
+    text="Lean theorems (Props/C11.lean, 26 + 4 Bridge): canClaimDrawRep (regenerated from the C++ by the translator) = the window characterisation 'some match at or above posHashFirstNew, or two matches'; the window loses nothing (on the chess spec: a position never equals the one 2 plies earlier nor one at odd distance); history builder yields exactly the hashes since the last zeroing move; third occurrence at ply 1 <-> the new position occurred twice in the given history (under no-collision and the hash being a function of board/side/castling/e.p., with the repaired e.p.-normalising builder; kernel-evaluated witness that the pinned builder violates it); 50-move test with mate first; console Game model: game states, draw claims, every reachable state records a legal game with normalised positions.",
+    note=BASE + "the negaScout draw prologue and the root loop's posHashFirstNew handling are tied only through the engine audit; irreversibility of zeroing moves is an explicit hypothesis; repetitions inside the search tree involving raw e.p. flags are out of scope.",
+    technique="Lean 4 proof (scan specification, history builder, third-occurrence theorem, console game model) + translator-regenerated scan kernel + differential of the real scan / setupPosition / Game API + engine audit of `go searchmoves m` scores by the Lean rule-level oracle",
+    design="notes/C11.md"),
+ "C12": dict(
+    text="Lean theorems (Props/C12.lean, 16): certificate_sound — if the executable checker accepts the bytes of a dumped table (local Bellman conditions on every placement, read through a transcription of Texel's own index mapping) then for every legal placement, either side to move, the table holds the exact distance to mate; probe score conversion = the search's mate scores; out-of-scope positions (castling rights, foreign/excess material, non-position indices) are never answered; repaired updateTB never leaves an aborted table installed along any history (witness for the pinned code). The proven checker is run (compiled Lean) over every placement of KK, all 3-man classes and one seed-chosen 4-man class in quick, all 36 4-man classes in thorough.",
+    note=BASE + "the Lean compiler/runtime is trusted for executing the proven checker; retrograde_exact (the generator algorithm itself) is not proved — exactness rests on checking the generator's output; BitBoard::extractSquare order assumed.",
+    technique="Lean 4 proof (fixed point of the Bellman conditions = exact DTM) + proven certificate checker run over every index of every generated table (both storage back ends) + index-level and probe differentials + abort injection histories",
+    design="notes/C12.md"),
  "C14": dict(
     text="Lean theorems (Props/C14.lean) on the table model: the repaired clear() yields exactly a fresh table (slots, used size, generation) up to the contempt hash; the first search after Clear Hash runs with generation 1 like a fresh engine; witness that the pinned commit's clear() (generation kept) makes an insert/insert/probe history observable differently once the generation wraps to 0. Partial: determinism of the whole search and the other persistent state (history, killers, caches) are tied by the two-process comparison of complete UCI output, not proved.",
     note=BASE + "determinism of the real search at Threads=1 is observed (fresh engine run twice); synthetic network; caches kept by Clear Hash assumed transparent (C07).",
